@@ -224,6 +224,47 @@ class Sim:
                 name = vthreads.current_loop_name()      # a hook reached from a synchronous handler's thread
             self.rec(ev, loop=name, **fields)
         veriftrace.sink = sink
+        self._observe_toggles(sink)
+
+    @staticmethod
+    def _observe_toggles(sink: Callable[[str, dict[str, Any]], None]) -> None:
+        """Observe (never alter) the effective state of the `any`-toggle-sets (operator_paused): kopf's classes are wrapped from
+        outside, the original coroutine runs first, then the state of the set is reported if it has changed (`tog.paused`)."""
+        from kopf._cogs.aiokits import aiotoggles
+        TS, TG = aiotoggles.ToggleSet, aiotoggles.Toggle
+        if getattr(TS, '_verif_observed', False):
+            TS._verif_sink = sink
+            return
+        TS._verif_observed = True
+        TS._verif_sink = sink
+        sets: dict[int, Any] = {}          # id(condition) -> the set (kept alive by the operator)
+
+        def report(ts: Any) -> None:
+            if ts._fn is not any:
+                return
+            on = ts.is_on()
+            if getattr(ts, '_verif_last', False) != on:
+                ts._verif_last = on
+                TS._verif_sink('tog.paused', {'on': on, 'names': sorted(str(t.name) for t in ts._toggles if t.is_on())})
+        orig_make, orig_drop, orig_drops, orig_turn = TS.make_toggle, TS.drop_toggle, TS.drop_toggles, TG.turn_to
+
+        async def make_toggle(self: Any, *a: Any, **kw: Any) -> Any:
+            sets[id(self._condition)] = self
+            r = await orig_make(self, *a, **kw); report(self); return r
+
+        async def drop_toggle(self: Any, *a: Any, **kw: Any) -> Any:
+            r = await orig_drop(self, *a, **kw); report(self); return r
+
+        async def drop_toggles(self: Any, *a: Any, **kw: Any) -> Any:
+            r = await orig_drops(self, *a, **kw); report(self); return r
+
+        async def turn_to(self: Any, *a: Any, **kw: Any) -> Any:
+            r = await orig_turn(self, *a, **kw)
+            ts = sets.get(id(self._condition))
+            if ts is not None:
+                report(ts)
+            return r
+        TS.make_toggle, TS.drop_toggle, TS.drop_toggles, TG.turn_to = make_toggle, drop_toggle, drop_toggles, turn_to
 
     def next_gen(self) -> int:
         self._gen += 1
